@@ -143,6 +143,12 @@ pub struct Uint128(pub u128);
 pub const U128_MAX: u128 = 0xffff_ffff_ffff_ffff_ffff_ffff_ffff_ffff;
 
 impl Uint128 {
+    // <Uint128 as FromStr>::from_str: decimal text of a u128 (T1)
+    #[verifier::external_body]
+    pub fn from_str(s: &str) -> (r: Result<Uint128, StdError>)
+        ensures r is Ok <==> (str_uint(s@) is Some && str_uint(s@)->Some_0 <= u128::MAX), r is Ok ==> r->Ok_0.0 == str_uint(s@)->Some_0,
+    { unimplemented!() }
+
     pub const MAX: Uint128 = Uint128(0xffff_ffff_ffff_ffff_ffff_ffff_ffff_ffff);
 
     pub open spec fn v(self) -> int { self.0 as int }
